@@ -16,7 +16,11 @@ type Broker struct {
 	W *World
 	// Plan decides the behaviour for the n-th connection:
 	// "" / "ack", "nack", "refuse", "hangup" (closes during the handshake),
-	// "stall" (accepts the connection and never answers).
+	// "stall" (accepts the connection and never answers), "drop" (drops the
+	// connection after it has received the publish, without storing or
+	// confirming it), "chanclose" (answers the publish by closing the channel:
+	// 404 NOT_FOUND, nothing stored), "lostack" (stores the message, then the
+	// connection is lost before the confirm goes out).
 	Plan      func(n int) string
 	Published [][]byte
 	Conns     int
@@ -117,14 +121,18 @@ func (b *Broker) serve(c net.Conn, mode string) {
 				bodyHave, body = 0, nil
 			}
 			if bodyWant == 0 {
-				b.finishPublish(c, pubCh, mode, nil)
+				if b.finishPublish(c, pubCh, mode, nil) {
+					return
+				}
 			}
 			continue
 		case 3: // content body
 			body = append(body, payload...)
 			bodyHave += len(payload)
 			if bodyHave >= bodyWant {
-				b.finishPublish(c, pubCh, mode, body)
+				if b.finishPublish(c, pubCh, mode, body) {
+					return
+				}
 			}
 			continue
 		case 1:
@@ -164,15 +172,32 @@ func (b *Broker) serve(c net.Conn, mode string) {
 	}
 }
 
-func (b *Broker) finishPublish(c net.Conn, ch uint16, mode string, body []byte) {
+// finishPublish answers a complete publish; it reports whether the broker
+// drops the connection now.
+func (b *Broker) finishPublish(c net.Conn, ch uint16, mode string, body []byte) (drop bool) {
 	b.W.Yield("net:amqp-confirm")
 	tag := []byte{0, 0, 0, 0, 0, 0, 0, 1}
-	if mode == "nack" {
+	switch mode {
+	case "nack":
 		writeFrame(c, 1, ch, method(60, 120, append(tag, 0)...))
-		return
+		return false
+	case "drop":
+		return true
+	case "chanclose":
+		// channel.close: reply-code 404, reply-text, failing class 60 method 40
+		text := "NOT_FOUND - no exchange"
+		args := []byte{0x01, 0x94, byte(len(text))}
+		args = append(args, text...)
+		args = append(args, 0, 60, 0, 40)
+		writeFrame(c, 1, ch, method(20, 40, args...))
+		return false
 	}
 	b.W.mu.Lock()
 	b.Published = append(b.Published, append([]byte(nil), body...))
 	b.W.mu.Unlock()
+	if mode == "lostack" {
+		return true
+	}
 	writeFrame(c, 1, ch, method(60, 80, append(tag, 0)...))
+	return false
 }
